@@ -205,29 +205,37 @@ def statement_text(src, masked, pos):
 TYPE_CTX_BEFORE = re.compile(r"(\bimpl\b|\bdyn\b|:\s*|where\b)[^;{}()=]*$")
 
 
-def sites_of(rel, text):
+def abstract(e):
+    """an expression with every identifier replaced by `I` (numbers, operators and brackets kept): what a site is, whatever
+    its variables are called"""
+    return re.sub(r"[A-Za-z_][A-Za-z0-9_]*", "I", e)
+
+
+def sites_of(rel, text, with_shapes=False):
     masked = mask_literals(text)
     masked, src = cut_tests_and_attrs(masked, text)
     spans = fn_spans(masked)
     found = []
+    shapes = []   # parallel to found: (file, kind, what the site is with every identifier abstracted) - see gen_panic_sites
 
-    def add(kind, pos, expr=None):
+    def add(kind, pos, expr=None, shape=None):
         fn = enclosing(spans, pos)
         if fn == "<item>":
             return  # constants, type declarations, derive input: evaluated at compile time or not code
         found.append((rel, fn, kind, expr if expr is not None else statement_text(src, masked, pos)))
+        shapes.append((rel, kind, shape if shape is not None else kind))
 
     for m in re.finditer(r"\.\s*(unwrap|unwrap_err)\s*\(\s*\)", masked):
-        add("unwrap", m.start())
+        add("unwrap", m.start(), shape=m.group(1))
     for m in re.finditer(r"\.\s*(expect|expect_err)\s*\(", masked):
-        add("expect", m.start())
+        add("expect", m.start(), shape=m.group(1))
     for m in re.finditer(r"\.\s*invariant_unwrap\s*\(", masked):
         add("invariant", m.start())
     for m in re.finditer(r"\b(panic|unreachable|unimplemented|todo|assert|assert_eq|assert_ne|debug_assert|debug_assert_eq)!", masked):
-        add("macro", m.start())
+        add("macro", m.start(), shape=m.group(1))
     for m in re.finditer(r"\benv::(args|vars)\s*\(\s*\)|\.\s*(split_at|split_at_mut|copy_from_slice|clone_from_slice|chunks|chunks_exact|"
                          r"remove|swap_remove|drain|truncate|step_by|windows|borrow_mut)\s*\(", masked):
-        add("api", m.start())
+        add("api", m.start(), shape=(m.group(1) or m.group(2)))
     # indexing / slicing: `[` directly after an identifier, `)` or `]` (not after `#`, `&`, `=`, `(`, `,`, `:` ...)
     for m in re.finditer(r"(?<=[A-Za-z0-9_\)\]])\[", masked):
         # skip array types / generics like `[u8; 16]` after `:` or `<` - those follow a non-identifier char
@@ -240,7 +248,7 @@ def sites_of(rel, text):
         a = m.start()
         while a > 0 and (masked[a - 1].isalnum() or masked[a - 1] in "_.)]("):
             a -= 1
-        add("index", m.start(), norm(src[a:end + 1])[:200])
+        add("index", m.start(), norm(src[a:end + 1])[:200], shape=abstract(norm(masked[m.start():end + 1])[:200]))
     # arithmetic
     for m in re.finditer(r"(?<![-+*/%=<>!&|^.])(\+=|-=|\*=|/=|%=|\+|-|\*|/|%)(?![=>*/])", masked):
         op = m.group(1)
@@ -262,7 +270,11 @@ def sites_of(rel, text):
                           re.match(r"[A-Z']", nxt) and not re.match(r"[A-Z][A-Z0-9_]*\b(?![a-z:<])", nxt)):
             continue
         # `*` / `-` in type position (`*const`, `-> T`) are excluded by the regex; generic `<T>` not affected
-        add("arith", pos)
+        ltok = re.search(r"([A-Za-z_][A-Za-z0-9_]*|[0-9][0-9A-Za-z_.]*|[)\]}\"'])$", prev)
+        rtok = re.match(r"([A-Za-z_][A-Za-z0-9_]*|[0-9][0-9A-Za-z_.]*|[(\[&*\-!\"'])", nxt)
+        add("arith", pos, shape="%s %s %s" % (abstract(ltok.group(1)) if ltok else "?", op, abstract(rtok.group(1)) if rtok else "?"))
+    if with_shapes:
+        return found, shapes
     return found
 
 
@@ -270,13 +282,70 @@ def coq_string(s):
     return '"' + s.replace('"', '""') + '"'
 
 
+REF = os.path.join(os.path.dirname(os.path.dirname(os.path.abspath(__file__))), "coq", "GeneratedRef", "GenPanicSites.v")
+
+
+def _shape_counts(shapes):
+    c = {}
+    for sh in shapes:
+        k = " | ".join(sh)
+        c[k] = c.get(k, 0) + 1
+    return c
+
+
+def _reference():
+    """(set of strict site rows, shape multiset) of the last validated tree, or None"""
+    import json
+    if not os.path.exists(REF):
+        return None
+    t = open(REF, encoding="utf-8").read()
+    m = re.search(r"\(\* shapes: (.*?) \*\)\s*$", t, re.S)
+    if not m:
+        return None
+    try:
+        counts = json.loads(m.group(1))
+    except Exception:
+        return None
+    rows = set(re.findall(r'^\s*[\[ ]\s*(\(".*\))\s*;?\s*(?:\]\.)?$', t, re.M))
+    return rows, counts
+
+
 def gen_panic_sites(repo):
-    rows = []
+    import json
+    rows, shapes = [], []
     for rel in ANCHORED:
         p = os.path.join(repo, rel)
         if not os.path.exists(p):
             raise Untranslatable("anchored file missing: " + rel)
-        rows += sites_of(rel, open(p, encoding="utf-8").read())
+        r, sh = sites_of(rel, open(p, encoding="utf-8").read(), with_shapes=True)
+        rows += r; shapes += sh
+    body = _render(rows, shapes)
+    # Rename tolerance. The strict key of a site contains its source text, so renaming a variable or moving a statement
+    # changes keys although no site is new. When the inventory differs from the one of the last validated tree but every
+    # (file, kind, identifier-free shape) occurs at most as often as there, nothing that can panic has been ADDED: the
+    # generator then declines to translate (the reference inventory is kept, rs2v_status says so, and the check enlarges
+    # its fuzzing run instead). One more index, unwrap, arithmetic operation ... of any shape in any anchored file is
+    # still emitted as read and has to be classified in Proofs/CrashSites.v.
+    ref = _reference()
+    if ref is not None:
+        ref_rows_text, ref_counts = ref
+        cur_counts = _shape_counts(shapes)
+        cur_text = open(REF, encoding="utf-8").read()
+        if _strip_header(cur_text) != body:
+            added = sorted(k for k, n in cur_counts.items() if n > ref_counts.get(k, 0))
+            if not added:
+                raise Untranslatable("panic sites were renamed, moved or removed but none was added (every file/kind/shape occurs "
+                                     "at most as often as in the last validated tree)")
+    return body
+
+
+def _strip_header(text):
+    i = text.find("From Coq Require Import String.\nLocal Open Scope string_scope.\n")
+    return text[i:] if i >= 0 else text
+
+
+def _render(rows, shapes):
+    import json
     # a key that occurs k times is listed k times with an occurrence counter, so that adding a
     # second identical unwrap in the same function is still a change
     seen = {}
@@ -292,6 +361,8 @@ def gen_panic_sites(repo):
                            for f, fn, k, e, n in out)
     body += " ].\n"
     body += "Definition anchored_files : list string :=\n  [ " + "; ".join(coq_string(f) for f in ANCHORED) + " ].\n"
+    js = json.dumps(_shape_counts(shapes), sort_keys=True).replace("*)", "*\\u0029").replace("(*", "\\u0028*")
+    body += "(* shapes: %s *)\n" % js
     return body
 
 
@@ -320,5 +391,7 @@ GENERATORS = {
 
 if __name__ == "__main__":
     import sys
-    for r in sum((sites_of(rel, open(os.path.join(sys.argv[1], rel)).read()) for rel in ANCHORED), []):
-        print(" | ".join(r))
+    for rel in ANCHORED:
+        r, sh = sites_of(rel, open(os.path.join(sys.argv[1], rel)).read(), with_shapes=True)
+        for a, b in zip(r, sh):
+            print(" | ".join(a), "   ##", b[2])
